@@ -1,4 +1,4 @@
-// C08: secret-dependent operations run in constant time.
+// C08 (monitor 1): secret-dependent operations run in constant time.
 // This driver is run under `valgrind --tool=lackey --trace-mem=yes --log-file=dir/t.%p`.
 // It warms one operation, then forks one child per secret (raw fork; GC off; thread locked;
 // no allocation in the fork loop) - every child starts from the same address-space image and
@@ -7,321 +7,25 @@
 package main
 
 import (
-	"bytes"
-	"crypto"
-	"crypto/sha256"
 	"crypto/sha512"
 	"fmt"
 	"os"
 	"runtime"
 	"runtime/debug"
-	"sort"
 	"strconv"
+	"strings"
 	"syscall"
 	"unsafe"
 
-	"github.com/oasisprotocol/curve25519-voi/curve"
-	"github.com/oasisprotocol/curve25519-voi/curve/scalar"
-	"github.com/oasisprotocol/curve25519-voi/internal/field"
-	"github.com/oasisprotocol/curve25519-voi/primitives/ed25519"
-	"github.com/oasisprotocol/curve25519-voi/primitives/ed25519/extra/ecvrf"
-	"github.com/oasisprotocol/curve25519-voi/primitives/sr25519"
-	"github.com/oasisprotocol/curve25519-voi/primitives/x25519"
+	"github.com/oasisprotocol/curve25519-voi/zzverif/ctops"
 )
 
 //go:noinline
 func marker(x int) int { return x ^ 0x5a }
 
-var (
-	cur       [64]byte // the secret of this child
-	out       [128]byte
-	pts       []*curve.EdwardsPoint
-	rpts      []*curve.RistrettoPoint
-	many      []*curve.EdwardsPoint
-	pubU      [32]byte
-	tbl       [256]byte
-	otherPriv ed25519.PrivateKey
-	srCtx     *sr25519.SigningContext
-	sinkBool  [4]bool
-)
-
-type fixedReader struct{}
-
-func (fixedReader) Read(p []byte) (int, error) {
-	for i := range p {
-		p[i] = 0x42
-	}
-	return len(p), nil
-}
-
-func sc(b []byte) *scalar.Scalar { s, _ := scalar.NewFromBits(b); return s }
-func put(b []byte)               { copy(out[:], b) }
-func putE(p *curve.EdwardsPoint) { b, _ := p.MarshalBinary(); copy(out[:], b) }
-func fe(b []byte) *field.Element { var f field.Element; f.SetBytes(b); return &f }
-
-var msgHello = []byte("hello world")
-var hHello = sha512.Sum512(msgHello)
-
-func scalars(n int) []*scalar.Scalar {
-	var ss []*scalar.Scalar
-	h := cur
-	for i := 0; i < n; i++ {
-		d := sha512.Sum512(h[:])
-		copy(h[:], d[:])
-		ss = append(ss, sc(h[:32]))
-	}
-	return ss
-}
-
-var ops = map[string]func(){
-	// Ed25519
-	"ed25519.NewKeyFromSeed": func() { put(ed25519.NewKeyFromSeed(cur[:32])) },
-	"ed25519.Sign(pure)":     func() { put(ed25519.Sign(ed25519.NewKeyFromSeed(cur[:32]), msgHello)) },
-	"ed25519.Sign(ctx)": func() {
-		s, _ := ed25519.NewKeyFromSeed(cur[:32]).Sign(nil, msgHello, &ed25519.Options{Context: "ctx"})
-		put(s)
-	},
-	"ed25519.Sign(ph)": func() {
-		s, _ := ed25519.NewKeyFromSeed(cur[:32]).Sign(nil, hHello[:], &ed25519.Options{Hash: crypto.SHA512})
-		put(s)
-	},
-	"ed25519.Sign(added randomness)": func() {
-		s, _ := ed25519.NewKeyFromSeed(cur[:32]).Sign(fixedReader{}, msgHello, &ed25519.Options{Context: "ctx", AddedRandomness: true})
-		put(s)
-	},
-	"ed25519.PrivateKey.Equal": func() {
-		k := ed25519.PrivateKey(cur[:64])
-		sinkBool[0] = k.Equal(otherPriv) // stored, never branched on by the harness
-	},
-	// X25519
-	"x25519.ScalarMult": func() {
-		var dst, k [32]byte
-		copy(k[:], cur[:32])
-		x25519.ScalarMult(&dst, &k, &pubU)
-		put(dst[:])
-	},
-	"x25519.ScalarBaseMult": func() {
-		var dst, k [32]byte
-		copy(k[:], cur[:32])
-		x25519.ScalarBaseMult(&dst, &k)
-		put(dst[:])
-	},
-	"x25519.X25519(Basepoint)": func() { b, _ := x25519.X25519(cur[:32], x25519.Basepoint); put(b) },
-	"x25519.X25519(point)":     func() { b, _ := x25519.X25519(cur[:32], pubU[:]); put(b) },
-	"x25519.EdPrivateKeyToX25519": func() {
-		put(x25519.EdPrivateKeyToX25519(ed25519.PrivateKey(cur[:64])))
-	},
-	"x25519.SharedSecret.IsZero": func() {
-		var ss x25519.SharedSecret
-		copy(ss[:], cur[:32])
-		sinkBool[0] = ss.IsZero()
-	},
-	"x25519.PrivateKey.DiffieHellman": func() {
-		var k x25519.PrivateKey
-		copy(k[:], cur[:32])
-		pub := x25519.PublicKey(pubU)
-		ss := k.DiffieHellman(&pub)
-		put(ss[:])
-	},
-	// curve
-	"EdwardsPoint.Mul":          func() { putE(curve.NewEdwardsPoint().Mul(pts[1], sc(cur[:32]))) },
-	"EdwardsPoint.MulBasepoint": func() { putE(curve.NewEdwardsPoint().MulBasepoint(curve.ED25519_BASEPOINT_TABLE, sc(cur[:32]))) },
-	"EdwardsPoint.MultiscalarMul(n=1)": func() {
-		putE(curve.NewEdwardsPoint().MultiscalarMul(scalars(1), pts[:1]))
-	},
-	"EdwardsPoint.MultiscalarMul(n=3)": func() {
-		putE(curve.NewEdwardsPoint().MultiscalarMul(scalars(3), pts))
-	},
-	"EdwardsPoint.MultiscalarMul(n=190)": func() {
-		putE(curve.NewEdwardsPoint().MultiscalarMul(scalars(190), many))
-	},
-	"EdwardsPoint.ConditionalSelect": func() {
-		p := curve.NewEdwardsPoint()
-		p.ConditionalSelect(pts[0], pts[1], int(cur[0]&1))
-		putE(p)
-	},
-	"EdwardsPoint.Equal(secret point)": func() {
-		p := curve.NewEdwardsPoint().MulBasepoint(curve.ED25519_BASEPOINT_TABLE, sc(cur[:32]))
-		out[0] = byte(p.Equal(pts[2]))
-	},
-	"CompressedEdwardsY.Equal": func() {
-		var a, b curve.CompressedEdwardsY
-		copy(a[:], cur[:32])
-		copy(b[:], cur[32:])
-		out[0] = byte(a.Equal(&b))
-	},
-	"RistrettoPoint.Mul": func() {
-		b, _ := curve.NewRistrettoPoint().Mul(rpts[0], sc(cur[:32])).MarshalBinary()
-		put(b)
-	},
-	"RistrettoPoint.MulBasepoint": func() {
-		b, _ := curve.NewRistrettoPoint().MulBasepoint(curve.RISTRETTO_BASEPOINT_TABLE, sc(cur[:32])).MarshalBinary()
-		put(b)
-	},
-	"RistrettoPoint.Equal(secret point)": func() {
-		p := curve.NewRistrettoPoint().MulBasepoint(curve.RISTRETTO_BASEPOINT_TABLE, sc(cur[:32]))
-		out[0] = byte(p.Equal(rpts[0]))
-	},
-	"RistrettoPoint.MultiscalarMul(n=2)": func() {
-		b, _ := curve.NewRistrettoPoint().MultiscalarMul(scalars(2), rpts).MarshalBinary()
-		put(b)
-	},
-	"MontgomeryPoint.Mul": func() {
-		var m, o curve.MontgomeryPoint
-		copy(m[:], pubU[:])
-		o.Mul(&m, sc(cur[:32]))
-		put(o[:])
-	},
-	// scalars
-	"scalar.Add":    func() { scalar.New().Add(sc(cur[:32]), sc(cur[32:])).ToBytes(out[:32]) },
-	"scalar.Sub":    func() { scalar.New().Sub(sc(cur[:32]), sc(cur[32:])).ToBytes(out[:32]) },
-	"scalar.Mul":    func() { scalar.New().Mul(sc(cur[:32]), sc(cur[32:])).ToBytes(out[:32]) },
-	"scalar.Neg":    func() { scalar.New().Neg(sc(cur[:32])).ToBytes(out[:32]) },
-	"scalar.Reduce": func() { scalar.New().Reduce(sc(cur[:32])).ToBytes(out[:32]) },
-	"scalar.Invert": func() { scalar.New().Invert(sc(cur[:32])).ToBytes(out[:32]) },
-	"scalar.BatchInvert": func() {
-		ss := scalars(3)
-		scalar.New().BatchInvert(ss).ToBytes(out[:32])
-	},
-	"scalar.SetBytesModOrderWide": func() { s, _ := scalar.New().SetBytesModOrderWide(cur[:64]); s.ToBytes(out[:32]) },
-	"scalar.SetBytesModOrder":     func() { s, _ := scalar.New().SetBytesModOrder(cur[:32]); s.ToBytes(out[:32]) },
-	"scalar.Equal":                func() { out[0] = byte(sc(cur[:32]).Equal(sc(cur[32:]))) },
-	"scalar.ConditionalSelect": func() {
-		s := scalar.New()
-		s.ConditionalSelect(sc(cur[:32]), sc(cur[32:]), int(cur[0]&1))
-		s.ToBytes(out[:32])
-	},
-	"scalar.ToRadix16+Bits": func() {
-		s := sc(cur[:32])
-		r := s.ToRadix16()
-		b := s.Bits()
-		out[0] = byte(r[5]) + b[77]
-	},
-	// field (the exported API of internal/field)
-	"field.Mul":    func() { var o field.Element; o.Mul(fe(cur[:32]), fe(cur[32:])); o.ToBytes(out[:32]) },
-	"field.Square": func() { var o field.Element; o.Square(fe(cur[:32])); o.ToBytes(out[:32]) },
-	"field.Invert": func() { var o field.Element; o.Invert(fe(cur[:32])); o.ToBytes(out[:32]) },
-	"field.SqrtRatioI": func() {
-		var o field.Element
-		_, f := o.SqrtRatioI(fe(cur[:32]), fe(cur[32:]))
-		o.ToBytes(out[:32])
-		out[33] = byte(f)
-	},
-	"field.ToBytes": func() { fe(cur[:32]).ToBytes(out[:32]) },
-	"field.predicates": func() {
-		a, b := fe(cur[:32]), fe(cur[32:])
-		out[0] = byte(a.IsNegative()) | byte(a.IsZero())<<1 | byte(a.Equal(b))<<2
-	},
-	// the difference of two secrets: equal halves give the representation p (a "zero" that is not all-zero limbs)
-	"field.Sub+ToBytes/IsZero": func() {
-		var d field.Element
-		d.Sub(fe(cur[:32]), fe(cur[32:]))
-		d.ToBytes(out[:32])
-		out[33] = byte(d.IsZero()) | byte(d.IsNegative())<<1
-	},
-	"field.Neg+Equal": func() {
-		var n field.Element
-		n.Neg(fe(cur[:32]))
-		out[0] = byte(n.Equal(fe(cur[32:])))
-	},
-	"field.ConditionalSelect/Swap/Negate": func() {
-		a, b := fe(cur[:32]), fe(cur[32:])
-		ch := int(cur[0] & 1)
-		var o field.Element
-		o.ConditionalSelect(a, b, ch)
-		a.ConditionalSwap(b, ch)
-		b.ConditionalNegate(ch)
-		o.ConditionalAssign(b, ch)
-		o.ToBytes(out[:32])
-	},
-	// sr25519
-	"sr25519.ExpandUniform": func() {
-		var msk sr25519.MiniSecretKey
-		copy(msk[:], cur[:32])
-		b, _ := msk.ExpandUniform().MarshalBinary()
-		put(b)
-	},
-	"sr25519.ExpandEd25519+PublicKey": func() {
-		var msk sr25519.MiniSecretKey
-		copy(msk[:], cur[:32])
-		b, _ := msk.ExpandEd25519().PublicKey().MarshalBinary()
-		put(b)
-	},
-	"sr25519.KeyPair.Sign": func() {
-		var msk sr25519.MiniSecretKey
-		copy(msk[:], cur[:32])
-		kp := msk.ExpandUniform().KeyPair()
-		sig, _ := kp.Sign(fixedReader{}, srCtx.NewTranscriptBytes(msgHello))
-		b, _ := sig.MarshalBinary()
-		put(b)
-	},
-	"sr25519.SecretKey.Equal/MiniSecretKey.Equal": func() {
-		var a, b sr25519.MiniSecretKey
-		copy(a[:], cur[:32])
-		copy(b[:], cur[32:])
-		sinkBool[0] = a.Equal(&b)
-		sinkBool[1] = a.ExpandEd25519().Equal(b.ExpandEd25519())
-	},
-	// ECVRF
-	"ecvrf.Prove": func() { put(ecvrf.Prove(ed25519.NewKeyFromSeed(cur[:32]), []byte("alpha"))) },
-	"ecvrf.ProveWithAddedRandomness": func() {
-		pi, _ := ecvrf.ProveWithAddedRandomness(fixedReader{}, ed25519.NewKeyFromSeed(cur[:32]), []byte("alpha"))
-		put(pi)
-	},
-	// positive controls: must be flagged
-	"control.leakyBranch": func() {
-		if bytes.Equal(cur[:16], cur[16:32]) || cur[0]&1 == 1 {
-			out[0] = byte(sha256.Sum256(cur[:8])[0])
-		}
-	},
-	"control.leakyIndex": func() { out[0] = tbl[cur[0]] },
-}
-
-func opNames() []string {
-	var n []string
-	for k := range ops {
-		n = append(n, k)
-	}
-	for k := range graftOps {
-		n = append(n, k)
-	}
-	sort.Strings(n)
-	return n
-}
-
-func secrets(n int) [][64]byte {
-	h := func(s string) (o [64]byte) { d := sha512.Sum512([]byte(s)); copy(o[:], d[:]); return }
-	fill := func(b byte) (o [64]byte) {
-		for i := range o {
-			o[i] = b
-		}
-		return
-	}
-	var eq [64]byte // equal halves
-	d := sha256.Sum256([]byte("c"))
-	copy(eq[:32], d[:])
-	copy(eq[32:], d[:])
-	var nonCanon [64]byte // first half p+1 (non-canonical field encoding), second half 1
-	for i := range nonCanon[:32] {
-		nonCanon[i] = 0xff
-	}
-	nonCanon[0], nonCanon[31], nonCanon[32] = 0xee, 0x7f, 1
-	var lowBit, highBit [64]byte
-	lowBit[0], highBit[31], highBit[63] = 1, 0x40, 0x40
-	var lm1 [64]byte // L-1 | L+1
-	copy(lm1[:32], []byte{0xec, 0xd3, 0xf5, 0x5c, 0x1a, 0x63, 0x12, 0x58, 0xd6, 0x9c, 0xf7, 0xa2, 0xde, 0xf9, 0xde, 0x14, 0, 0, 0, 0, 0, 0, 0, 0, 0, 0, 0, 0, 0, 0, 0, 0x10})
-	copy(lm1[32:], lm1[:32])
-	lm1[32] = 0xee
-	all := [][64]byte{h("a"), h("a"), h("b"), {}, fill(0xff), fill(0x88), eq, nonCanon, fill(0x77), lowBit, highBit, lm1, h("d"), h("e")}
-	if n > len(all) {
-		n = len(all)
-	}
-	return all[:n]
-}
-
 func main() {
 	if len(os.Args) >= 2 && os.Args[1] == "-list" {
-		for _, n := range opNames() {
+		for _, n := range ctops.Names() {
 			fmt.Println(n)
 		}
 		return
@@ -332,47 +36,22 @@ func main() {
 	}
 	name := os.Args[1]
 	ns, _ := strconv.Atoi(os.Args[2])
-	op, ok := ops[name]
-	if !ok {
-		op, ok = graftOps[name]
-	}
+	op, ok := ctops.Get(name)
 	if !ok {
 		fmt.Println("unknown op")
 		os.Exit(2)
 	}
 	debug.SetGCPercent(-1)
 	runtime.LockOSThread()
-	// shared public inputs
-	for i := 0; i < 3; i++ {
-		p := curve.NewEdwardsPoint().MulBasepoint(curve.ED25519_BASEPOINT_TABLE, sc(bytes.Repeat([]byte{byte(i + 3)}, 32)))
-		pts = append(pts, p)
-	}
-	for i := 0; i < 2; i++ {
-		rp := curve.NewRistrettoPoint().MulBasepoint(curve.RISTRETTO_BASEPOINT_TABLE, sc(bytes.Repeat([]byte{byte(i + 9)}, 32)))
-		rpts = append(rpts, rp)
-	}
-	if name == "EdwardsPoint.MultiscalarMul(n=190)" {
-		for i := 0; i < 190; i++ {
-			many = append(many, pts[i%3])
-		}
-	}
-	var m curve.MontgomeryPoint
-	m.SetEdwards(pts[0])
-	copy(pubU[:], m[:])
-	for i := range tbl {
-		tbl[i] = byte(i * 7)
-	}
-	otherPriv = ed25519.NewKeyFromSeed(bytes.Repeat([]byte{7}, 32))
-	srCtx = sr25519.NewSigningContext([]byte("ctx"))
-	graftInit()
+	ctops.Init(strings.Contains(name, "n=190"))
 	w := sha512.Sum512([]byte("warm"))
-	copy(cur[:], w[:])
+	copy(ctops.Cur[:], w[:])
 	op() // warm: lazy initialisation happens in the parent
-	secs := secrets(ns)
+	secs := ctops.Secrets(ns)
 	var pids [32]int
 	np := 0
 	for i := range secs {
-		cur = secs[i]
+		ctops.Cur = secs[i]
 		pid, _, errno := syscall.RawSyscall(syscall.SYS_FORK, 0, 0, 0)
 		if errno != 0 {
 			panic(errno)
@@ -381,7 +60,7 @@ func main() {
 			marker(1)
 			op()
 			marker(2)
-			msg := []byte("child " + strconv.Itoa(i) + " out " + fmt.Sprintf("%x", out[:8]) + "\n")
+			msg := []byte("child " + strconv.Itoa(i) + " out " + fmt.Sprintf("%x", ctops.Out[:8]) + "\n")
 			syscall.RawSyscall(syscall.SYS_WRITE, 1, uintptr(unsafe.Pointer(&msg[0])), uintptr(len(msg)))
 			syscall.RawSyscall(syscall.SYS_EXIT_GROUP, 0, 0, 0)
 		}
